@@ -505,6 +505,45 @@ func c03Copy(p *Program, r *Report) {
 			// the source decision consults the SOURCE bucket's ACL and this caller
 			aclOK := false
 			aclDesc := "not set in the literal (inherits the destination's)"
+			// the ACL may be decoded straight into the options' field: json.Unmarshal(bytes, &srcOpts.Acl)
+			if _, al := litFields(opt); al != nil && len(fs["Acl"]) == 0 && al.Referrers() != nil {
+				for _, ref := range *al.Referrers() {
+					fa, ok := ref.(*ssa.FieldAddr)
+					if !ok || fieldName(al.Type(), fa.Field) != "Acl" || fa.Referrers() == nil {
+						continue
+					}
+					for _, use := range *fa.Referrers() {
+						var call ssa.CallInstruction
+						switch u := use.(type) {
+						case ssa.CallInstruction:
+							call = u
+						case *ssa.MakeInterface:
+							if u.Referrers() != nil {
+								for _, u2 := range *u.Referrers() {
+									if c2, ok := u2.(ssa.CallInstruction); ok {
+										call = c2
+									}
+								}
+							}
+						}
+						if call == nil {
+							continue
+						}
+						aclDesc = "decoded in place by " + calleeName(call)
+						for _, a := range callArgs(call) {
+							for _, x := range Origins(a, nil) {
+								if x.Kind == "call" && x.Desc == "(backend.Backend).GetBucketAcl" {
+									for _, y := range argRoots(x.Call) {
+										if y.Kind == "param" && y.Desc == "copySource" {
+											aclOK = true
+										}
+									}
+								}
+							}
+						}
+					}
+				}
+			}
 			if av := fs["Acl"]; len(av) == 1 {
 				ars := Origins(av[0], nil)
 				aclDesc = rootsDesc(terminalRoots(ars))
